@@ -82,6 +82,10 @@ async fn run_command(
             }
             Err(err) => return Ok(ToolOutput::failure(vec![err])),
         }
+    } else {
+        // No `cwd` argument: the command runs in the workspace root, not in whatever directory
+        // the serving process happens to have been started from.
+        cmd.current_dir(&config.workspace_root);
     }
     // provider credentials stay with the authority; an explicit `env` of the call still applies
     for name in crate::secret_env_names() {
